@@ -1444,7 +1444,7 @@ def c19_geo(inp):
     import pandas as pd
 
     from pyoma2.functions import gen
-    rng = np.random.RandomState(int(inp.get("seed", 19)))
+    rng = np.random.RandomState(int(inp.get("seed", 19)) + 1000 * int(inp.get("seed_offset", 0)))
     ntr = int(inp.get("trials", 150))
     fails = {}
 
